@@ -274,7 +274,7 @@ theorem delete_robot_keeps (m : RefMap) {r : Ref} (h : r.robotOwned = true) : Op
   · intro d he; rw [he] at h; cases h
 
 theorem qOnly_mem {m : RefMap} {r : Ref} (h : r ∈ qOnly m) : r.robotOwned = true := by
-  unfold qOnly at h
+  rw [mem_qOnly] at h; unfold qRaw at h
   simp only [List.mem_map, List.mem_filter] at h
   obtain ⟨rc, ⟨_, hq⟩, rfl⟩ := h
   cases hr : rc.1 <;> simp [hr] at hq <;> rfl
@@ -314,7 +314,7 @@ theorem updateW_done_robot (pr : PrInfo) : ∀ (ds : List Dest) (l : Loc) (prev 
     | none => exact hd
     | some t =>
       simp only
-      cases l.merge (.w d pr.src) [t, prev] with
+      cases l.mergeN pr.noOct (.w d pr.src) t prev with
       | none => exact hd
       | some l' =>
         simp only
